@@ -76,7 +76,7 @@ m = {
  ],
  "checks": checks,
  "not_applicable": [{"property_id": k, "reason": v} for k,v in NA.items()],
- "notes": "Exit codes of ./check: 0 held on everything explored (KNOWN-FINDING lines possible), 1 VIOLATION, 2 machinery fault (build error, nondeterministic replay, wall-clock cap) — never a verdict. known_findings.json is read-only at run time (all entries are `fixed`: eleven genuine defects were repaired in /repo, one `fix:` commit each). evidence/ is rewritten by every run; evidence_thorough/ keeps the evidence of the last complete thorough pass (./run_all.sh thorough). seeded/ holds 144 independently written, individually confirmed property-breaking changes with the checks that catch each (DESIGN.md section 10); ./seedrun <patch> [IDs] applies one to /repo, runs the quick checks and undoes it."
+ "notes": "Exit codes of ./check: 0 held on everything explored (KNOWN-FINDING lines possible), 1 VIOLATION, 2 machinery fault (build error, nondeterministic replay, wall-clock cap) — never a verdict. known_findings.json is read-only at run time (all entries are `fixed`: eleven genuine defects were repaired in /repo, one `fix:` commit each). evidence/ is rewritten by every run; evidence_thorough/ keeps the evidence of the last complete thorough pass (./run_all.sh thorough). seeded/ holds 154 independently written, individually confirmed property-breaking changes with the checks that catch each (DESIGN.md section 10); ./seedrun <patch> [IDs] applies one to /repo, runs the quick checks and undoes it."
 }
 json.dump(m, open('/verif/MANIFEST.json','w'), indent=1)
 print("wrote MANIFEST.json with", len(checks), "checks")
